@@ -30,6 +30,7 @@ struct %(IT)s { struct %(M)s *m; unsigned long idx; int gen; };
 #define %(IT)s__op_deref__0 vf_%(K)s_deref
 #define %(IT)s__op_inc__0 vf_%(K)s_inc
 #define ext_op_ne__std_Rb_tree_iterator_std_pair_%(K)s_std_promise_int_Self_ref_std_Rb_tree_iterator_std_pair_%(K)s_std_promise_int_Self_ref(a, b) ((a)->idx != (b)->idx)
+#define ext_op_eq__std_Rb_tree_iterator_std_pair_%(K)s_std_promise_int_Self_ref_std_Rb_tree_iterator_std_pair_%(K)s_std_promise_int_Self_ref(a, b) ((a)->idx == (b)->idx)
 ''' % d
     code = r'''
 void vf_%(K)s_begin(struct %(IT)s *it, struct %(M)s *m) { NEED_LOCK("map.begin()"); it->m = m; it->idx = 0; it->gen = m->gen; }
